@@ -85,9 +85,13 @@ Lemma names_len_table :
 Proof. vm_compute. split; reflexivity. Qed.
 
 Lemma parse_color_hash6 : forall c1 c2 c3 c4 c5 c6,
+  is_hex_b c1 = true -> is_hex_b c2 = true -> is_hex_b c3 = true ->
+  is_hex_b c4 = true -> is_hex_b c5 = true -> is_hex_b c6 = true ->
   parse_color [35; c1; c2; c3; c4; c5; c6] = Some [c1; c2; c3; c4; c5; c6].
 Proof.
-  intros. destruct names_len_table as [HN HA].
+  intros c1 c2 c3 c4 c5 c6 X1 X2 X3 X4 X5 X6. destruct names_len_table as [HN HA].
+  assert (HX : hex36_b [c1; c2; c3; c4; c5; c6] = true).
+  { unfold hex36_b. cbn [forallb]. rewrite X1, X2, X3, X4, X5, X6. reflexivity. }
   unfold parse_color.
   change (mem_str [35; c1; c2; c3; c4; c5; c6] ansi_color_names) with false.
   change (assoc [35; c1; c2; c3; c4; c5; c6] ansi_color_aliases) with (@None str).
@@ -99,7 +103,7 @@ Proof.
   change (slice_from [35; c1; c2; c3; c4; c5; c6] 1) with [c1; c2; c3; c4; c5; c6].
   rewrite (mem_str_len_false ansi_color_names [c1; c2; c3; c4; c5; c6]) by exact HN.
   rewrite (assoc_len_none ansi_color_aliases [c1; c2; c3; c4; c5; c6]) by exact HA.
-  reflexivity.
+  rewrite HX. reflexivity.
 Qed.
 
 Lemma apply_part_hash : forall t a,
@@ -159,6 +163,9 @@ Proof.
     rewrite E. destruct (Hl (c + 32) ltac:(lia)) as [A B]. eauto.
 Qed.
 
+Lemma lhex_is_hex : forall c, lhex c -> is_hex_b c = true.
+Proof. intros c (v & H & _). unfold is_hex_b. rewrite H. reflexivity. Qed.
+
 Lemma lhex_props : forall c, lhex c ->
   is_space c = false /\ (c =? 110) = false.
 Proof.
@@ -183,11 +190,11 @@ Proof.
   split.
   - split; [exact W1|]. split; [reflexivity|].
     unfold parse_style_str. rewrite no_n_no_noinherit.
-    + rewrite (single_word _ W1). cbn [apply_parts]. rewrite apply_part_hash, parse_color_hash6. reflexivity.
+    + rewrite (single_word _ W1). cbn [apply_parts]. rewrite apply_part_hash, parse_color_hash6 by (apply lhex_is_hex; assumption). reflexivity.
     + cbn [forallb]. rewrite N1, N2, N3, N4, N5, N6. reflexivity.
   - split; [exact W2|]. split; [reflexivity|].
     unfold parse_style_str. rewrite no_n_no_noinherit.
-    + rewrite (single_word _ W2). cbn [apply_parts]. rewrite apply_part_bg, slice_from_bg, parse_color_hash6. reflexivity.
+    + rewrite (single_word _ W2). cbn [apply_parts]. rewrite apply_part_bg, slice_from_bg, parse_color_hash6 by (apply lhex_is_hex; assumption). reflexivity.
     + cbn [forallb]. rewrite N1, N2, N3, N4, N5, N6. reflexivity.
 Qed.
 
